@@ -137,6 +137,21 @@ fn inputs(ctx: &Ctx) -> Vec<Input> {
         rows.extend(uniq(10, &mut rng));
         out.push(Input { name: "keys-differing-only-by-trailing-nul-bytes", files: vec![rows], same_path_twice: false, terminators: 0 });
     }
+    {
+        // keys with leading / trailing blanks and tabs are keys like any other (and differ from their trimmed siblings)
+        let mut rows: Vec<(String, u64)> = vec![];
+        for (i, base) in ["a", "b c", "key", "x9"].iter().enumerate() {
+            rows.push((base.to_string(), 1 + i as u64));
+            rows.push((format!("{} ", base), 10 + i as u64));
+            rows.push((format!(" {}", base), 100 + i as u64));
+            rows.push((format!("{}\t", base), 1000 + i as u64));
+            rows.push((format!("  {}  ", base), 7));
+        }
+        rows.extend(uniq(8, &mut rng));
+        out.push(Input { name: "keys-with-leading-and-trailing-blanks", files: vec![rows.clone(), rows.iter().rev().take(7).cloned().collect()], same_path_twice: false, terminators: 0 });
+    }
+    // more batches in one phase than a 15-bit counter or a 32768-slot queue holds
+    out.push(Input { name: "forty-thousand-rows-for-batch-size-1", files: vec![uniq(40_000, &mut rng)], same_path_twice: false, terminators: 0 });
     out.push(Input { name: "one-row", files: vec![vec![("solo".to_string(), 77)]], same_path_twice: false, terminators: 0 });
     out.push(Input { name: "empty-input", files: vec![vec![]], same_path_twice: false, terminators: 0 });
     {
@@ -720,6 +735,9 @@ pub fn run(ctx: &Ctx) -> i32 {
             }
         }
         // thousands of batches in one phase
+        if let Some(ii) = ins.iter().position(|i| i.name.starts_with("forty-thousand-rows")) {
+            plan.push((ii, RunCfg { batch: 1, fd: 15, threads: 4, mode: Mode::Set, delay_seed: None, stale_output: false, tmp_elsewhere: false }));
+        }
         if let Some(ii) = ins.iter().position(|i| i.name.starts_with("six-thousand-rows")) {
             plan.push((ii, RunCfg { batch: 1, fd: 15, threads: 4, mode: Mode::Set, delay_seed: None, stale_output: false, tmp_elsewhere: false }));
             plan.push((ii, RunCfg { batch: 1, fd: 3, threads: 2, mode: Mode::Sum, delay_seed: None, stale_output: true, tmp_elsewhere: false }));
